@@ -811,7 +811,7 @@ class NetConnections:
         inodes = {}
         for pid in pids():
             try:
-                inodes.update(self.get_proc_inodes(pid))
+                proc_inodes = self.get_proc_inodes(pid)
             except (FileNotFoundError, ProcessLookupError, PermissionError):
                 # os.listdir() is gonna raise a lot of access denied
                 # exceptions in case of unprivileged user; that's fine
@@ -821,6 +821,10 @@ class NetConnections:
                 # unlikely we can do any better.
                 # ENOENT just means a PID disappeared on us.
                 continue
+            # A socket can be open in several processes (e.g. inherited
+            # across fork()): keep the (pid, fd) pairs of all of them.
+            for inode, pairs in proc_inodes.items():
+                inodes.setdefault(inode, []).extend(pairs)
         return inodes
 
     @staticmethod
